@@ -44,7 +44,9 @@ def processing_order(spec):
     if spec.get("explicit_config_entry"):
         order.append("bumpver.toml")
     for key, _idx in spec["entries"]:
-        if "*" in key:
+        if key == "*.toml":
+            order.append("bumpver.toml")
+        elif "*" in key:
             order += ["glob/one.txt", "glob/two.txt"]
         else:
             order.append(key)
